@@ -88,6 +88,10 @@ type C05Case struct {
 	Buffered bool
 	Trunc    int // -1 = none; otherwise the stream is cut off after Trunc bytes
 	BadLen   int // -1 = none; otherwise a header declaring this length (<20) follows the messages, then 40 more bytes
+	// BadHdr selects the rest of that header: 0 = a CER; 1 = a command the dictionary does not
+	// define; 2 = an answer of an undefined command under an application nobody loaded; 3 = all
+	// other header bits set (flags 0xff, version 0xff)
+	BadHdr int `json:",omitempty"`
 	// Overstate > 0: the LAST AVP of message Sizes[OverIdx] declares Overstate bytes more than it has
 	// (the message length itself is truthful). That message must be rejected, the following ones
 	// must still be read at their offsets, and no byte of an earlier message may show up in it.
@@ -194,7 +198,7 @@ func (c C05Case) Desc() string {
 	if c.EOFData {
 		return fmt.Sprintf("bodies=%v cuts=%v unit=%d bufio=%v trunc=%d badlen=%d, io.EOF returned together with the last bytes", c.Sizes, c.Cuts, c.Unit, c.Buffered, c.Trunc, c.BadLen)
 	}
-	return fmt.Sprintf("bodies=%v cuts=%v unit=%d bufio=%v trunc=%d badlen=%d", c.Sizes, c.Cuts, c.Unit, c.Buffered, c.Trunc, c.BadLen)
+	return fmt.Sprintf("bodies=%v cuts=%v unit=%d bufio=%v trunc=%d badlen=%d/hdr%d", c.Sizes, c.Cuts, c.Unit, c.Buffered, c.Trunc, c.BadLen, c.BadHdr)
 }
 
 var c05msgCache = map[[2]int][]byte{}
@@ -240,7 +244,16 @@ func (c C05Case) stream() (full []byte, msgs [][]byte) {
 		full = append(full, m...)
 	}
 	if c.BadLen >= 0 {
-		h := refcodec.EncodeHeader(refcodec.Header{Version: 1, Length: uint32(c.BadLen), Flags: 0x80, Code: 257, HbH: 9, E2E: 9})
+		hd := refcodec.Header{Version: 1, Length: uint32(c.BadLen), Flags: 0x80, Code: 257, HbH: 9, E2E: 9}
+		switch c.BadHdr {
+		case 1:
+			hd.Code = 9999999
+		case 2:
+			hd.Code, hd.App, hd.Flags = 16777215, 4294967295, 0
+		case 3:
+			hd.Version, hd.Flags = 0xff, 0xff
+		}
+		h := refcodec.EncodeHeader(hd)
 		full = append(full, h...)
 		full = append(full, make([]byte, 40)...)
 	}
@@ -522,8 +535,10 @@ func c05Enum(ctx *ev.Ctx, fn func(C05Case)) string {
 	// declared length 0..19 as the very first header
 	for l := 0; l < 20; l++ {
 		for _, buffered := range []bool{false, true} {
-			emit(C05Case{Buffered: buffered, Trunc: -1, BadLen: l})
-			emit(C05Case{Buffered: buffered, Trunc: -1, BadLen: l, Unit: 1})
+			for hdr := 0; hdr < 4; hdr++ {
+				emit(C05Case{Buffered: buffered, Trunc: -1, BadLen: l, BadHdr: hdr})
+				emit(C05Case{Buffered: buffered, Trunc: -1, BadLen: l, BadHdr: hdr, Unit: 1})
+			}
 		}
 	}
 	maxCuts := 2
@@ -637,6 +652,7 @@ func c05Enum(ctx *ev.Ctx, fn func(C05Case)) string {
 				for l := 0; l < 20; l++ {
 					c := base
 					c.BadLen = l
+					c.BadHdr = (l + len(sq)) % 4 // the four kinds of header rotate over the lengths and histories
 					emit(c)
 					c.Unit = 3
 					emit(c)
@@ -644,7 +660,7 @@ func c05Enum(ctx *ev.Ctx, fn func(C05Case)) string {
 			}
 		}
 	}
-	return "all sequences of <=3 messages over body sizes {0,8,1016,1024,1028,4100,70000}; a message of 1 MiB - 4, 1 MiB, 1 MiB + 32 / 64 / 4096, 2 MiB, 3 MiB + 1044, 8 MiB and 16 MiB - 4 bytes between two short ones (uncut, 4093-byte reads, cut inside its header and at the MiB mark, truncated one byte early); read through a scripted io.Reader and through bufio.NewReader on top of it; all cut vectors with <=2 (thorough 3) cuts - every offset for streams <=200 bytes, otherwise every offset within +-3 (thorough: +-24 for single messages) of a message border, header/body border, 1 KiB and 4 KiB boundary (quick: three large messages or more than 120 candidate offsets: <=1 cut; thorough: 3 cuts where the candidate set has <=70 offsets and no 70 000-byte message is involved, otherwise 2, and 1 for three messages including the 70 000-byte one); uniform 1..40-byte readers; truncation at every such offset (plain, 7-byte reads, and with one earlier cut for short streams); a header declaring each length 0..19 followed by 40 more bytes after every sequence of <=2 messages and as the first header. and messages whose last AVP declares 1..2000 bytes more than the (truthful) message holds, between two other messages: rejected, following message still read at its offset.; every message of the uncut cases also read from a source of its own overlapping with a read from another source after an oversize message; the base and single-cut cases also with a source that returns io.EOF together with the last bytes; the base, single-cut and two-cut cases also with a source that answers one Read with (0, nil) before the first byte and at every cut; sequences of <=3 messages with bodies from {9, 29, 1017, 1023, 8, 1024} containing at least one whose declared length is not a multiple of four (last AVP sent unpadded); all histories of <=3 reads over bodies {8,600,1016,2036,5000} with diam.MessageBufferLength set to one of {1024,4096,512} before each read. Also a private dictionary in which one command has request rules only: its answer (bodies 8..5000 bytes), between well-formed messages, is consumed to its declared length whatever ReadMessage says about it. Distinct by (sizes, cuts, unit, bufio, truncation, bad length, overstatement, EOF mode, empty reads, buffer lengths)."
+	return "all sequences of <=3 messages over body sizes {0,8,1016,1024,1028,4100,70000}; a message of 1 MiB - 4, 1 MiB, 1 MiB + 32 / 64 / 4096, 2 MiB, 3 MiB + 1044, 8 MiB and 16 MiB - 4 bytes between two short ones (uncut, 4093-byte reads, cut inside its header and at the MiB mark, truncated one byte early); read through a scripted io.Reader and through bufio.NewReader on top of it; all cut vectors with <=2 (thorough 3) cuts - every offset for streams <=200 bytes, otherwise every offset within +-3 (thorough: +-24 for single messages) of a message border, header/body border, 1 KiB and 4 KiB boundary (quick: three large messages or more than 120 candidate offsets: <=1 cut; thorough: 3 cuts where the candidate set has <=70 offsets and no 70 000-byte message is involved, otherwise 2, and 1 for three messages including the 70 000-byte one); uniform 1..40-byte readers; truncation at every such offset (plain, 7-byte reads, and with one earlier cut for short streams); a header declaring each length 0..19 (the rest of it a CER, an undefined command, an undefined answer under an unknown application, or all other bits set) followed by 40 more bytes after every sequence of <=2 messages and as the first header. and messages whose last AVP declares 1..2000 bytes more than the (truthful) message holds, between two other messages: rejected, following message still read at its offset.; every message of the uncut cases also read from a source of its own overlapping with a read from another source after an oversize message; the base and single-cut cases also with a source that returns io.EOF together with the last bytes; the base, single-cut and two-cut cases also with a source that answers one Read with (0, nil) before the first byte and at every cut; sequences of <=3 messages with bodies from {9, 29, 1017, 1023, 8, 1024} containing at least one whose declared length is not a multiple of four (last AVP sent unpadded); all histories of <=3 reads over bodies {8,600,1016,2036,5000} with diam.MessageBufferLength set to one of {1024,4096,512} before each read. Also a private dictionary in which one command has request rules only: its answer (bodies 8..5000 bytes), between well-formed messages, is consumed to its declared length whatever ReadMessage says about it. Distinct by (sizes, cuts, unit, bufio, truncation, bad length, overstatement, EOF mode, empty reads, buffer lengths)."
 }
 
 func runC05(ctx *ev.Ctx) {
